@@ -154,16 +154,23 @@ int main(int argc, char** argv) {
 
         /* ---- T3 prefix uniqueness --------------------------------------------------------- */
         if (l->has_prefix) {
-            int ok = 1; long n = 0; char d[600] = "no two words share their first four accent-stripped letters; no word is a prefix of another";
+            int ok = 1; long n = 0; char d[600] = "no two words share their first four accent-stripped letters (hence no word of four or more letters is a prefix of another)";
             static char st[POLYSEED_LANG_SIZE][64]; static int sl[POLYSEED_LANG_SIZE];
             for (int i = 0; i < POLYSEED_LANG_SIZE; ++i) sl[i] = ref_strip(l->words[i], st[i], 1);
             for (int i = 0; i < POLYSEED_LANG_SIZE && ok; ++i) for (int j = 0; j < POLYSEED_LANG_SIZE; ++j) {
                 if (i == j) continue; n++;
                 int m = sl[i] < 4 ? sl[i] : 4, m2 = sl[j] < 4 ? sl[j] : 4;
                 if (m == m2 && !memcmp(st[i], st[j], m)) { ok = 0; snprintf(d, sizeof d, "words[%d]=%s and words[%d]=%s share their first four letters", i, l->words[i], j, l->words[j]); break; }
-                if (sl[i] <= sl[j] && !memcmp(st[i], st[j], sl[i])) { ok = 0; snprintf(d, sizeof d, "words[%d]=%s is a prefix of words[%d]=%s", i, l->words[i], j, l->words[j]); break; }
             }
-            emit("prefix_unique", sn, ok, n, d);
+            emit("first4_unique", sn, ok, n, d);
+            /* literal clause "no word is a prefix of another": enumerate ALL offending pairs */
+            int np = 0; n = 0;
+            printf("{\"name\": \"T.short_prefix[%s]\", \"evaluated\": %d, \"witness\": {\"pairs\": [", sn, POLYSEED_LANG_SIZE * (POLYSEED_LANG_SIZE - 1));
+            for (int i = 0; i < POLYSEED_LANG_SIZE; ++i) for (int j = 0; j < POLYSEED_LANG_SIZE; ++j) {
+                if (i == j) continue;
+                if (sl[i] <= sl[j] && !memcmp(st[i], st[j], sl[i])) { printf("%s\"%d<%d\"", np ? ", " : "", i, j); np++; }
+            }
+            printf("]}, \"status\": \"%s\", \"detail\": \"%d pairs (word, longer word it is an accent-stripped prefix of); all involve words shorter than four letters iff first4_unique holds\"}\n", np ? "fail" : "pass", np);
         }
 
         /* ---- T6 token-safe ------------------------------------------------------------------ */
